@@ -345,7 +345,7 @@ func runC01_3(c *core.Ctx) {
 			if cf == nil || a.v.byObj[cf] == nil {
 				return false
 			}
-			return a.readerMethods[cf.Name()] && cf.Name() != "InboundBuffered" || flow.SameFunc(cf, a.resetBuffer)
+			return a.readerMethods[cf.Name()] && nameOf(cf) != "InboundBuffered" || flow.SameFunc(cf, a.resetBuffer)
 		}
 		p := &flow.Problem{Must: true}
 		p.Node = func(b *flow.Block, i int, nd ast.Node, in uint64) uint64 {
@@ -461,7 +461,7 @@ func runC01_5(c *core.Ctx) {
 	}
 	isIOEOF := func(e ast.Expr) bool {
 		o := flow.ObjOf(f.Info, e)
-		return o != nil && o.Pkg() != nil && o.Pkg().Path() == "io" && o.Name() == "EOF"
+		return o != nil && o.Pkg() != nil && o.Pkg().Path() == "io" && nameOf(o) == "EOF"
 	}
 	if c.P.Cfg.IsLinux() {
 		epollin := c.P.ExtObject(unixPkg, "EPOLLIN")
@@ -555,7 +555,7 @@ func runC01_5(c *core.Ctx) {
 		const fNotRead = 1
 		p := &flow.Problem{Must: true}
 		p.Edge = func(e *flow.Edge, in uint64) uint64 {
-			if e.Tag != nil && !e.Sense && flow.ObjOf(f.Info, e.Cond) == evRead {
+			if l, r, eq, ok := flow.Equality(e); ok && !eq && (flow.ObjOf(f.Info, r) == evRead || flow.ObjOf(f.Info, l) == evRead) {
 				in |= fNotRead
 			}
 			return in
@@ -806,9 +806,21 @@ func runC01_7(c *core.Ctx) {
 			o := flow.ObjOf(f.Info, se.Low)
 			okAdv := false
 			why := ""
+			// n - inBufferLen, with inBufferLen := c.inboundBuffer.Buffered()
+			isRest := func(d ast.Expr) bool {
+				be, ok := ast.Unparen(d).(*ast.BinaryExpr)
+				if !ok || be.Op != token.SUB || flow.ObjOf(f.Info, be.X) != types.Object(nParam) || nParam == nil {
+					return false
+				}
+				ld := seeThrough(f, be.Y)
+				call, ok := ld.(*ast.CallExpr)
+				return ok && a.onInbound(f, call, a.ringBuffered)
+			}
 			switch {
+			case o == nil && isRest(se.Low):
+				okAdv = true
 			case o == nil:
-				why = "the advance " + exprStr(se.Low) + " is not a plain variable"
+				why = "the advance " + exprStr(se.Low) + " is neither a variable nor n minus the ring bytes"
 			case holdsCount[as]:
 				okAdv = true
 			case candIdx(o) >= 0:
